@@ -436,3 +436,54 @@ CHECKS['C20'] = dict(
     min_counters={'quick': {'packets': 300000, 'dtx_packets': 30000, 'dtx_starts_checked': 500, 'refresh_packets': 1500, 'resumptions_checked': 3000},
                   'thorough': {'dtx_packets': 500000}},
 )
+
+CHECKS['C09'] = dict(
+    level='fault_enumeration',
+    rule="window: per case one 3.4 s speech-like stream (forced SILK NB/MB/WB, hybrid SWB/FB or CELT; 2.5..60 ms frames; mono/stereo; LBRR "
+         "enabled with 15..40 % expected loss in 3 of 4 SILK/hybrid streams; decoder rate/channels may differ from the encoder's) and ALL "
+         "2^k loss patterns over a window of k consecutive packets (k=8 quick, 12 thorough) at a random position; each pattern is decoded from "
+         "a reset decoder with the lost packets concealed by whole-packet calls, by 2.5/5/10/20 ms pieces, or recovered by an FEC call on the "
+         "next packet (also with frame_size twice the packet). burst: long bursts 1..10 s and random 10 % loss. Every call is checked for "
+         "the requested duration, finite samples, final range of received packets, level bounds against the last 500 ms decoded, decay after "
+         "1 s, FEC vs concealment on a cloned decoder (error energy against the loss-free twin where LBRR is present, exact equality where it "
+         "is not), and convergence to the loss-free twin 1 s after the last loss. Exhaustive over the 2^k patterns of each window.",
+    assumptions=COMMON_ASSUME + ["thresholds are the committed constants of calib/c09.json (measured on the pinned tree with margin): kappa, peak kappa, delta, rho, recovery SNR",
+                                 "the stimulus has a quiet background (speech-like bursts over -60 dB noise), as the decay clause requires"],
+    evals_counter='patterns',
+    runs=[
+        dict(h='h_c09.c', mode='window', flavour='prod', n={'quick': 320, 'thorough': 640}, args={'quick': ['k=8'], 'thorough': ['k=12']}, timeout={'quick': 1800, 'thorough': 14400}),
+        dict(h='h_c09.c', mode='burst', flavour='prod', n={'quick': 640, 'thorough': 16000}),
+        dict(h='h_c09.c', mode='window', flavour='asan', n={'quick': 32, 'thorough': 320}, args={'quick': ['k=6'], 'thorough': ['k=8']}),
+        dict(h='h_c09.c', mode='window', flavour='prod-fixed', n={'quick': 96, 'thorough': 320}, args={'quick': ['k=8'], 'thorough': ['k=10']}),
+        dict(h='h_c09.c', mode='burst', flavour='asan-fixed', n={'quick': 64, 'thorough': 1600}),
+    ],
+    min_nontrivial={'quick': 40, 'thorough': 60},
+    min_counters={'quick': {'patterns': 60000, 'plc_calls': 500000, 'fec_calls': 50000, 'fec_lbrr_events': 10000, 'recoveries_checked': 50000, 'bursts_over_1s': 600},
+                  'thorough': {'patterns': 2000000}},
+)
+
+CHECKS['C03'] = dict(
+    level='exploration',
+    rule="stream: each case is a 2.2..3.2 s stream from the FROZEN reference encoder (random rate, channels, application, complexity, bitrate "
+         "6..510 kb/s, CBR/VBR, FEC, DTX, all signal families) with forced mode switches (SILK/hybrid/CELT/auto), bandwidth, forced-channel, "
+         "frame-size (2.5..120 ms) and bitrate changes mid-stream; its packets are regrouped by the frozen repacketizer into code 0/1/2/3 "
+         "packets of up to 120 ms and randomly padded. Up to `configs` of the ten decoder configurations {8,12,16,24,48 kHz} x {1,2 ch} are "
+         "run per stream: tree decoder and frozen decoder in lock-step (count, final range exact), then the RFC metric of the tree's 16-bit "
+         "output against the frozen decoder at the same rate/channels (verdict; for a fixed-point tree the frozen source built fixed-point), and against its 48 kHz stereo output (the RFC procedure, reported only). "
+         "metric: the metric port is cross-checked against the RFC tool (compiled from the frozen source) on clean and degraded signals. "
+         "Distinct = (TOC byte, decoder rate, channels, mode transition).",
+    assumptions=COMMON_ASSUME + ["'reference decoder/encoder' = the frozen source snapshot of the pinned commit (/verif/ref), built with clang as portable C; deviations from RFC 6716 already present in that commit are invisible",
+                                 "oracles/rfc_compare.h is a faithful port of opus_compare.c (cross-checked against the tool in mode 'metric')",
+                                 "PCM reference for the fixed-point tree builds is the frozen snapshot built fixed-point (the reference implementation's own fixed-point configuration); final ranges are always compared with the float reference",
+                                 "the RFC procedure against the 48 kHz stereo reference is informational: the pinned reference decoder itself does not pass it at lower output rates on arbitrary low-rate mode-switching streams"],
+    evals_counter='streams_compared',
+    runs=[
+        dict(h='h_c03.c', mode='metric', flavour='prod', ref='both', n={'quick': 48, 'thorough': 400}),
+        dict(h='h_c03.c', mode='stream', flavour='prod', ref='both', n={'quick': 480, 'thorough': 6000}, args={'quick': ['configs=3'], 'thorough': ['configs=10']}),
+        dict(h='h_c03.c', mode='stream', flavour='prod-fixed', ref='both', n={'quick': 240, 'thorough': 3000}, args={'quick': ['configs=3'], 'thorough': ['configs=10']}),
+        dict(h='h_c03.c', mode='stream', flavour='asan', ref='both', n={'quick': 64, 'thorough': 1000}, args=['configs=2']),
+        dict(h='h_c03.c', mode='stream', flavour='prod-np', ref='both', n={'quick': 96, 'thorough': 1000}, args=['configs=3']),
+    ],
+    min_nontrivial={'quick': 1000, 'thorough': 2000},
+    min_counters={'quick': {'streams_compared': 1500, 'packets_compared': 80000, 'metric_crosschecks': 48}, 'thorough': {'streams_compared': 50000}},
+)
